@@ -1,5 +1,5 @@
 target('c39_boot', 'engines/comp/c39_boot.cpp',
-       quick=dict(cases=40000, size=60), thorough=dict(cases=2000000, size=80))
+       quick=dict(cases=120000, size=60), thorough=dict(cases=2000000, size=80))
 # the same Case / run() under libFuzzer (engines/comp/run_fuzz.py builds and runs it)
 target('c39_fuzz', 'engines/comp/c39_fuzz.cpp', kind='fuzz',
        quick=dict(runs=40000, max_seconds=60, max_len=1024), thorough=dict(runs=3000000, max_seconds=900, max_len=1024))
